@@ -102,7 +102,9 @@ impl Server {
                 .parse()
                 .unwrap();
 
-            let tcp_listener = TcpListener::bind(&hc_sock_addr)
+            // Every worker thread creates its own Server, so the listener needs SO_REUSEPORT
+            // (like the UDP socket) or only the first worker could bind the health check port.
+            let tcp_listener = Self::bind_health_listener(&hc_sock_addr)
                 .expect("failed to bind TCP listener for health check");
 
             poll.register(
@@ -159,6 +161,23 @@ impl Server {
     }
 
     /// Returns a reference to the server's long-term public key
+    fn bind_health_listener(addr: &SocketAddr) -> std::io::Result<TcpListener> {
+        use net2::unix::UnixTcpBuilderExt;
+
+        let builder = if addr.is_ipv6() {
+            net2::TcpBuilder::new_v6()?
+        } else {
+            net2::TcpBuilder::new_v4()?
+        };
+        let std_listener = builder
+            .reuse_address(true)?
+            .reuse_port(true)?
+            .bind(addr)?
+            .listen(1024)?;
+
+        TcpListener::from_std(std_listener)
+    }
+
     pub fn get_public_key(&self) -> &str {
         self.responder_ietf.get_public_key()
     }
